@@ -202,6 +202,8 @@ func vtNewPKI(dir string) *vtPKI {
 	p.peer["otherCA"], _, _ = vtLeaf(&caB, vtPeerName, from, to, both)
 	p.peer["sameNameCA"], _, _ = vtLeaf(&caA2, vtPeerName, from, to, both)
 	p.peer["expired"], _, _ = vtLeaf(&caA, vtPeerName, now.Add(-48*time.Hour), now.Add(-time.Hour), both)
+	p.peer["expiredJust"], _, _ = vtLeaf(&caA, vtPeerName, now.Add(-48*time.Hour), now.Add(-5*time.Second), both)
+	p.peer["notYetValid"], _, _ = vtLeaf(&caA, vtPeerName, now.Add(time.Hour), now.Add(48*time.Hour), both)
 	p.peer["wrongEKU"], _, _ = vtLeaf(&caA, vtPeerName, from, to, []x509.ExtKeyUsage{x509.ExtKeyUsageCodeSigning})
 	// peers that ship more than their leaf: withChain appends further certificates to what is presented
 	withChain := func(c *tls.Certificate, more ...[]byte) *tls.Certificate {
